@@ -819,7 +819,27 @@ fn cmd_lockstep(args: &[String]) {
 /// The observed history of operation sequences on the real Cache in the log format of `random`:
 /// after every step the key just stored is looked up first, then every other key used so far.
 fn runseq_trace(limit: usize, tl: usize, unit: usize) {
-    for line in stdin_lines() {
+    // every key (route x host) that occurs in any of the sequences is looked up after every step, like in the graph replays
+    let lines: Vec<String> = stdin_lines().collect();
+    let mut routes: Vec<u8> = vec![];
+    let mut hosts: Vec<u8> = vec![];
+    for line in &lines {
+        if let Ok(v) = serde_json::from_str::<Value>(line) {
+            for o in v.as_array().map(|a| a.to_vec()).unwrap_or_default() {
+                let op = OpA::from_json(&o);
+                if op.op < 2 {
+                    if !routes.contains(&op.route) {
+                        routes.push(op.route);
+                    }
+                    if !hosts.contains(&op.host) {
+                        hosts.push(op.host);
+                    }
+                }
+            }
+        }
+    }
+    let universe: Vec<(u8, u8)> = routes.iter().flat_map(|r| hosts.iter().map(move |h| (*r, *h))).collect();
+    for line in lines {
         let v: Value = match serde_json::from_str(&line) {
             Ok(v) => v,
             Err(_) => continue,
@@ -874,6 +894,11 @@ fn runseq_trace(limit: usize, tl: usize, unit: usize) {
             }
             for (r, h) in keys.clone() {
                 lookup(&cache, r, h, vnow, &mut seq);
+            }
+            for (r, h) in &universe {
+                if !keys.contains(&(*r, *h)) {
+                    lookup(&cache, *r, *h, vnow, &mut seq);
+                }
             }
         }
     }
